@@ -260,6 +260,10 @@ def _fraction_cases(max_nodes):
                 for stop, hide in [([], [])] + [([x], []) for x in sub[1:]] + [([], [x]) for x in sub]:
                     k += 1
                     yield {"shape": forest.to_list(shape), "names": special_names(size, k), "start": start, "stop": stop, "hide": hide, "maxlevel": half + 0.5, "truth": k, "positional": k % 4 == 0, "indent": k % 3, "cls": "Node"}
+            # option lines are the indent followed by the option, whatever the option is (empty, blank, several lines, fences)
+            for j, options in enumerate((["", "x"], ["  "], ["%% a\n%% b"], ["```"], ["tail\r", "  ```mermaid"])):
+                k += 1
+                yield {"shape": forest.to_list(shape), "names": special_names(size, k), "start": start, "stop": [], "hide": [], "maxlevel": None, "truth": k, "positional": k % 4 == 0, "indent": 1 + j % 3, "cls": "Node", "options": options, "to_file": True}
             # predicate objects that are falsy: used or ignored, but the same way for node lines and edge lines
             for stop, hide in [([x], []) for x in sub[1:]] + [([], [x]) for x in sub] + [([x], [y]) for x in sub[1:] for y in sub if x != y]:
                 k += 1
@@ -299,7 +303,7 @@ def random_cases(draw):
     if draw(st.booleans()):
         case["indent"] = draw(st.integers(0, 8))
     if draw(st.booleans()):
-        case["options"] = draw(st.lists(st.sampled_from(["%% comment", "classDef x fill:#f9f;", "linkStyle default stroke:red"]), max_size=3))
+        case["options"] = draw(st.lists(st.sampled_from(["%% comment", "classDef x fill:#f9f;", "linkStyle default stroke:red", "", "  ", "%% a\n%% b", "tail\r", "```", "```` four", "  ```mermaid"]), max_size=3))
     if draw(st.booleans()):
         case["graph"] = draw(st.sampled_from(["graph", "flowchart"]))
         case["name"] = draw(st.sampled_from(["TD", "LR", "BT"]))
